@@ -37,10 +37,9 @@ CONSTANTS
   \*    body   : [service -> set of subsets of {"command","args","env"}],
   \*    expk   : [service -> set of expose kind names],
   \*    counts : set of replica counts,
-  \*    quants : [profile -> tag of a set of quantity records [cpu, cpuArch, mem, storage, storageAttrs]]]
-  \* DocSpace is the union over the slices of the full product of the choices (see DocsFor).
-  Slices,
-  QuantsOf(_)  \* tag -> the set of quantity records (an operator, so that big unit universes are built on use only)
+  \*    quants : [profile -> sequence of quantity families]]   (see Families below)
+  \* The document space is, per slice, the full product of the choices (DocsFor); Init ranges over all slices.
+  Slices
 
 VARIABLES doc, ord, out
 vars == <<doc, ord, out>>
@@ -52,6 +51,7 @@ vars == <<doc, ord, out>>
 NameUniverse == <<"api", "db", "east", "large", "north", "small", "web", "west">>
 Rank(n) == CHOOSE i \in 1..Len(NameUniverse) : NameUniverse[i] = n
 SortedNames(S) == SelectSeq(NameUniverse, LAMBDA n : n \in S)
+SumSeq(s) == LET F[i \in 0..Len(s)] == IF i = 0 THEN 0 ELSE F[i - 1] + s[i] IN F[Len(s)]
 WalkSeq(S, order) == IF Walk = "sorted" THEN SortedNames(S) ELSE SelectSeq(order, LAMBDA n : n \in S)
 
 (***************************************************************************)
@@ -178,25 +178,48 @@ MkDoc(svcs, profs, places, body, expk, assign, deploy, cnt, quant) ==
 \* all functions f on D with f[x] \in Choice[x]
 FuncsBy(D, Choice) == {f \in [D -> UNION {Choice[x] : x \in D}] : \A x \in D : f[x] \in Choice[x]}
 
+(***************************************************************************)
+(* Quantity families.  Large unit universes (every CPU decimal, every      *)
+(* n.t<suffix>) are described, not listed, and are enumerated through an   *)
+(* integer index: TLC removes duplicates from UNIONs and \cup by linear     *)
+(* search, so big sets of records must never be unioned.                   *)
+(*   [k |-> "list", items |-> <<quantity records>>]                        *)
+(*   [k |-> "cpu", form, lo, hi]        cpu = lo..hi milli in text form    *)
+(*   [k |-> "mem" | "storage", sfx, lo, hi]   size = n.t sfx, n in lo..hi, *)
+(*                                             t in 1..9                   *)
+(* The dimensions a family does not vary are those of BaseQuantity.        *)
+(***************************************************************************)
+BaseQuantity == [cpu |-> [form |-> "m", milli |-> 100], cpuArch |-> "",
+                 mem |-> [n |-> 128, tenths |-> 0, suffix |-> "Mi"],
+                 storage |-> [n |-> 1, tenths |-> 0, suffix |-> "Gi"], storageAttrs |-> <<>>]
+FamCount(f) == CASE f.k = "list" -> Len(f.items)
+                 [] f.k = "cpu" -> f.hi - f.lo + 1
+                 [] f.k \in {"mem", "storage"} -> (f.hi - f.lo + 1) * 9
+FamAt(f, j) ==
+  CASE f.k = "list" -> f.items[j]
+    [] f.k = "cpu" -> [BaseQuantity EXCEPT !.cpu = [form |-> f.form, milli |-> f.lo + j - 1]]
+    [] f.k = "mem" -> [BaseQuantity EXCEPT !.mem = [n |-> f.lo + ((j - 1) \div 9), tenths |-> ((j - 1) % 9) + 1, suffix |-> f.sfx]]
+    [] f.k = "storage" -> [BaseQuantity EXCEPT !.storage = [n |-> f.lo + ((j - 1) \div 9), tenths |-> ((j - 1) % 9) + 1, suffix |-> f.sfx]]
+FamOffset(fams, i) == SumSeq([x \in 1..(i - 1) |-> FamCount(fams[x])])
+FamTotal(fams) == FamOffset(fams, Len(fams) + 1)
+QuantityAt(fams, k) ==
+  LET i == CHOOSE x \in 1..Len(fams) : FamOffset(fams, x) < k /\ k <= FamOffset(fams, x + 1)
+  IN FamAt(fams[i], k - FamOffset(fams, i))
+
 DocsFor(sl) ==
   LET SS == Range(sl.svcs) PS == Range(sl.profs) LS == Range(sl.places)
-      \* one quantity record per profile; each universe QuantsOf(tag) is built once (they can be large)
-      quantChoices ==
-        IF Len(sl.profs) = 1
-        THEN { [c \in PS |-> q1] : q1 \in QuantsOf(sl.quants[sl.profs[1]]) }
-        ELSE { [c \in PS |-> IF c = sl.profs[1] THEN q1 ELSE q2] :
-                 q1 \in QuantsOf(sl.quants[sl.profs[1]]), q2 \in QuantsOf(sl.quants[sl.profs[2]]) }
+      p1 == sl.profs[1]
+      p2 == sl.profs[Len(sl.profs)]
   IN
-  { MkDoc(sl.svcs, sl.profs, sl.places, body, expk, assign, deploy, cnt, quant) :
-      quant  \in quantChoices,
+  { MkDoc(sl.svcs, sl.profs, sl.places, body, expk, assign, deploy, cnt,
+          [c \in PS |-> IF c = p1 THEN QuantityAt(sl.quants[p1], k1) ELSE QuantityAt(sl.quants[p2], k2)]) :
+      k1     \in 1..FamTotal(sl.quants[p1]),
+      k2     \in IF Len(sl.profs) = 1 THEN {1} ELSE 1..FamTotal(sl.quants[p2]),
       body   \in FuncsBy(SS, sl.body),
       expk   \in FuncsBy(SS, sl.expk),
       assign \in [SS -> PS],
       deploy \in [SS -> (SUBSET LS) \ {{}}],
       cnt    \in [SS -> sl.counts] }
-
-\* (an operator with a parameter on purpose: TLC evaluates parameterless constant definitions eagerly, once per worker)
-DocSpaceOf(slices) == UNION { DocsFor(slices[i]) : i \in 1..Len(slices) }
 
 (***************************************************************************)
 (* Look-ups on a document.                                                 *)
@@ -299,7 +322,6 @@ Manifest(d, o) ==
 AllExposeEntries(d) == FlattenSeq([k \in 1..Len(d.deployment) |-> ExposeUnsorted(Svc(d, d.deployment[k].service))])
 AllHosts(d) == FlattenSeq([k \in 1..Len(AllExposeEntries(d)) |-> AllExposeEntries(d)[k].hosts])
 NoDup(s) == \A i, j \in 1..Len(s) : i # j => s[i] # s[j]
-SumSeq(s) == LET F[i \in 0..Len(s)] == IF i = 0 THEN 0 ELSE F[i - 1] + s[i] IN F[Len(s)]
 GroupCpu(d, p) == SumSeq([k \in 1..Len(d.deployment) |->
                     IF d.deployment[k].placement = p
                     THEN d.deployment[k].count * CpuMilli(Prof(d, d.deployment[k].profile).cpu) ELSE 0])
@@ -449,7 +471,8 @@ Perms(s) == {p \in [1..Len(s) -> Range(s)] : \A i, j \in 1..Len(s) : i # j => p[
 Orders(d) == [svc : Perms(SortedNames(SvcNames(d))), place : Perms(SortedNames({d.placement[i].name : i \in 1..Len(d.placement)}))]
 CanonOrder(d) == [svc |-> SortedNames(SvcNames(d)), place |-> SortedNames({d.placement[i].name : i \in 1..Len(d.placement)})]
 
-Init == doc \in DocSpaceOf(Slices) /\ ord = CanonOrder(doc) /\ out = NoOut
+Init == /\ \E i \in 1..Len(Slices) : doc \in DocsFor(Slices[i])
+        /\ ord = CanonOrder(doc) /\ out = NoOut
 
 \* sdl.Read + DeploymentGroups + Manifest + Version on the document as presently ordered
 Run == out' = Out(doc, ord) /\ UNCHANGED <<doc, ord>>
